@@ -23,6 +23,7 @@ RULE = ('every ordered pair of catalogue constraints (##any, ##other, every non-
         'extended from a base with a wildcard); non-trivial = the two constraints denote different, non-empty, non-universal sets; '
         'quick enumerates all 1.0 pairs, all 1.1 pairs on the component route and a seeded slice of '
         '1.1 pairs on the instance route; thorough enumerates everything')
+RULE += (' ' + 'Route cross: the catalogue is declared in two schema documents with different target namespaces and every pair with a ##other operand is pushed through union / intersection / restriction / overlap across the documents (##other is relative to the declaring document).')
 ASSUMPTIONS = [
     'the XSI namespace is outside the universe (the library admits it specially)',
     'is_restriction=True => inclusion is claimed; the converse is only tallied (over_strict)',
